@@ -1,6 +1,7 @@
 """C13 - copy-returning operations never mutate; failed mutations change nothing."""
 from __future__ import annotations
 
+import math
 import os
 
 from hypothesis import strategies as st
@@ -68,11 +69,17 @@ def run_tier_history(case):
 @st.composite
 def tg_op_cases(draw):
     style = draw(gen.STYLES_ARITH)
-    spec = draw(gen.textgrid(style=style, max_tiers=3, label=gen.AB))
+    spec = draw(gen.textgrid(style=style, max_tiers=3, label=gen.ABE))
     if draw(st.integers(0, 3)) == 0:
         # a textgrid that declares a longer span than its tiers have (a tier added in 'silence' mode does not shrink it)
-        spec = draw(gen.textgrid(style=style, max_tiers=draw(st.sampled_from([1, 2])), label=gen.AB, clean=False))
+        spec = draw(gen.textgrid(style=style, max_tiers=draw(st.sampled_from([1, 2])), label=gen.ABE, clean=False))
         spec["maxT"] = spec["maxT"] + 1.5
+    elif draw(st.integers(0, 4)) == 0:
+        # one tier ends one unit in the last place before the textgrid does (0.3 in a textgrid ending at 0.1 + 0.2)
+        t = spec["tiers"][draw(st.integers(0, len(spec["tiers"]) - 1))]
+        lo_ = math.nextafter(t["maxT"], -math.inf)
+        if all(e[-2] <= lo_ for e in t["entries"]) and lo_ > t["minT"]:
+            t["maxT"] = lo_
     other = draw(gen.textgrid(style=style, max_tiers=2, label=gen.AB))
     names = [t["name"] for t in spec["tiers"]]
     ts = sorted({t for tr in spec["tiers"] for e in tr["entries"] for t in e[:-1]} | {spec["minT"], spec["maxT"]})
@@ -80,7 +87,9 @@ def tg_op_cases(draw):
     kind = draw(st.sampled_from(["crop", "erase", "insert_space", "edit", "append", "merge", "new", "validate", "save_str",
                                  "queries", "add", "add", "remove", "rename", "rename", "replace", "replace",
                                  "tier_insert", "tier_insert", "tier_insert", "tier_delete"]))
-    if spec["maxT"] > max(t["maxT"] for t in spec["tiers"]) and draw(st.booleans()):
+    if any(0 < spec["maxT"] - t["maxT"] < 1e-9 for t in spec["tiers"]) and draw(st.booleans()):
+        kind = draw(st.sampled_from(["validate", "save_str", "queries"]))  # pure queries on a textgrid validate() complains about
+    elif spec["maxT"] > max(t["maxT"] for t in spec["tiers"]) and draw(st.booleans()):
         kind = draw(st.sampled_from(["replace", "rename", "add", "replace", "remove", "replace"]))  # the textgrid's own span is at stake here
     op = {"kind": kind}
     anyname = st.sampled_from(names + ["zz"])
@@ -127,6 +136,8 @@ def run_tg_op(case):
     mutator = kind in ("add", "remove", "rename", "replace", "tier_insert", "tier_delete")
     new_tier = None
     classes = {kind}
+    if any(0 < spec["maxT"] - t["maxT"] < 1e-9 for t in spec["tiers"]):
+        classes.add("tier_ends_one_ulp_before_textgrid")
     if len(spec["tiers"]) == 1 and spec["maxT"] > spec["tiers"][0]["maxT"]:
         classes.add("single_tier_shorter_than_textgrid")
 
